@@ -233,7 +233,13 @@ Inductive op :=
 | OLoad (generate : bool) (p : path)               (* load_config / maybe_load_config on a fresh SecureConfig *)
         (fresh : list bytes)                       (* the random arrays the implementation drew *)
         (seen : id_file)                           (* what the harness read from <p>/config-id before *)
-        (result : lres).                           (* what the implementation returned *)
+        (result : lres)                            (* what the implementation returned *)
+        (unexpected : list path)                   (* everything the call created, changed or removed
+                                                      other than <root>/<well-formed id>[/metadata.binpb
+                                                      |/config.toml] and <p>/config-id, <p>/config.toml
+                                                      (observed by diffing the whole case directory,
+                                                      sentinel directory next to the root included) *)
+| OUnexpected.                                     (* the harness itself hit an impossible state *)
 
 Record case := mk_case {
   k_root : path;
@@ -282,7 +288,8 @@ Definition apply_fs_op (w : world) (o : op) : world :=
       end
   | OSetMd id m => set_cfg w id (mk_cfg m (cd_toml (cfg_at w id)))
   | OSetToml id c => set_cfg w id (mk_cfg (cd_md (cfg_at w id)) c)
-  | OLoad _ _ _ _ _ => w
+  | OLoad _ _ _ _ _ _ => w
+  | OUnexpected => w
   end.
 
 Definition id_file_eqb (a b : id_file) : bool :=
@@ -323,7 +330,7 @@ Definition lres_eqb (a b : lres) : bool :=
 Fixpoint run (root : path) (w : world) (ops : list op) : bool * world :=
   match ops with
   | [] => (true, w)
-  | OLoad gen p fresh seen result :: rest =>
+  | OLoad gen p fresh seen result _ :: rest =>
       let '(r, w', _) := (if gen then load_config else maybe_load_config) w fresh root p in
       let seen_m := match repo_at w p with Some (_, rp) => r_id_file rp | None => IdMissing end in
       let '(ok, wf) := run root w' rest in
@@ -341,10 +348,13 @@ Definition final_agrees (c : case) (w : world) : bool :=
                         || cfgdir_eqb (snd ic) (mk_cfg MdMissing None)) (w_cfg w).
 
 (** The property on the implementation's own outputs: every returned file is
-    <root>/<one normal component>/config.toml, and a malformed id file is rejected. *)
+    <root>/<one normal component>/config.toml, a malformed id file is rejected, and nothing
+    outside the allowed files was created, changed or removed. *)
 Definition load_okb (root : path) (o : op) : bool :=
   match o with
-  | OLoad _ _ _ seen result =>
+  | OUnexpected => false
+  | OLoad _ _ _ seen result unexpected =>
+      match unexpected with [] => true | _ => false end &&
       match result with
       | LOk l =>
           match l_file l with
@@ -374,7 +384,9 @@ Definition check_case (c : case) : N :=
 (** What [okb] means. *)
 Definition load_ok (root : path) (o : op) : Prop :=
   match o with
-  | OLoad _ _ _ seen result =>
+  | OUnexpected => False
+  | OLoad _ _ _ seen result unexpected =>
+      unexpected = [] /\
       match result with
       | LOk l =>
           (forall f, l_file l = Some f ->
